@@ -9,8 +9,9 @@ from concurrent.futures import ProcessPoolExecutor
 from harness import tlc, sim, link
 from harness.ev import jsonable
 
-TRAFFIC = [("peer", 0, 1), ("peer", 1, 5), ("peer", 5, 32), ("peer", 1, 32), ("tx_ok",), ("tx_fail",), ("tx_retry_ok",),
+TRAFFIC = [("peer", 0, 1), ("peer", 1, 5), ("peer", 5, 32), ("peer", 1, 32), ("peer", 1, 0), ("tx_ok",), ("tx_fail",), ("tx_retry_ok",),
            ("write_only",), ("load_ack",)]
+# ("peer", 1, 0): an empty (zero-length) payload, legal with dynamic payload lengths
 BOOL3 = list(itertools.product([True, False], repeat=3))
 ACCESS = ([("available",), ("update",), ("pipe",), ("any",), ("tx_full",), ("irq_dr",), ("irq_ds",), ("irq_df",), ("read",),
            ("flush_rx",), ("flush_tx",), ("last_tx_arc",)]
